@@ -30,6 +30,9 @@ structure Cfg where
   block  : Option Str     -- LUNAR_BLOCK_LIST (none = unset)
   allow  : Option Str     -- LUNAR_ALLOW_LIST
   dns    : List (Str × Res)
+  /-- Resolver answers are a HISTORY per name: the first `n` lookups of the name fail transiently
+      (`gaierror` EAI_AGAIN, a resolver time-out), every later lookup gets the answer of `dns`. -/
+  transient : List (Str × Nat) := []
 deriving Repr
 
 /-- `self._max_errors_allowed = cooldown_time or 5` after the two swaps cancelled. -/
@@ -43,6 +46,23 @@ def Cfg.resolve (cfg : Cfg) (h : Str) : Res :=
   match cfg.dns.find? (fun p => p.1 == h) with
   | some p => p.2
   | none => .gaierror
+
+/-- How many initial lookups of the name fail transiently. -/
+def Cfg.transientFor (cfg : Cfg) (h : Str) : Nat :=
+  match cfg.transient.find? (fun p => p.1 == h) with
+  | some p => p.2
+  | none => 0
+
+/-- Lookups made so far, per name (state of the resolver as the filter drives it). -/
+abbrev Lookups := List (Str × Nat)
+
+def lookupCount (l : Lookups) (h : Str) : Nat :=
+  match l.find? (fun p => p.1 == h) with
+  | some p => p.2
+  | none => 0
+
+def bumpLookup (l : Lookups) (h : Str) : Lookups :=
+  (h, lookupCount l h + 1) :: l.filter (fun p => p.1 != h)
 
 /-! ### Traffic filter -/
 
@@ -113,17 +133,33 @@ def isExternalDomain (cfg : Cfg) (h : Str) : Except DecExc (Option Bool) :=
 def isExternalRaw (cfg : Cfg) (h : Str) : Except DecExc (Option Bool) :=
   if validateIp h then (isExternalIp h).map some else isExternalDomain cfg h
 
-/-- `_is_external` (cache consulted first; unresolvable answers are not stored).  A `ValueError`
-    raised by the classification (`AddressValueError`, `UnicodeError`) is caught: the destination
-    is answered "not external" and nothing is stored. -/
-def isExternal (cfg : Cfg) (c : Cache) (h : Str) : Bool × Cache :=
+/-- One classification with the resolver as it is NOW: `(answer, lookups', transient fault seen)`.
+    An IP literal needs no lookup; a name whose next lookup is one of its transient failures is
+    answered `None` (the `except socket_error` branch) and the failure is reported. -/
+def isExternalNow (cfg : Cfg) (lk : Lookups) (h : Str) : Except DecExc (Option Bool) × Lookups × Bool :=
+  if validateIp h then ((isExternalIp h).map some, lk, false)
+  else if lookupCount lk h < cfg.transientFor h then (.ok none, bumpLookup lk h, true)
+  else (isExternalDomain cfg h, bumpLookup lk h, false)
+
+/-- What `is_allowed` / `_is_external` leave behind and answer. -/
+structure Dec where
+  allowed : Bool
+  cache   : Cache
+  lookups : Lookups
+  fault   : Bool      -- the resolver failed transiently during this decision (observable at the resolver)
+deriving Repr
+
+/-- `_is_external` (cache consulted first; unresolvable answers are NOT stored: they are tried
+    again next time).  A `ValueError` raised by the classification (`AddressValueError`,
+    `UnicodeError`) is caught: the destination is answered "not external" and nothing is stored. -/
+def isExternal (cfg : Cfg) (c : Cache) (lk : Lookups) (h : Str) : Dec :=
   match cacheGet c h with
-  | some b => (b, c)
+  | some b => ⟨b, c, lk, false⟩
   | none =>
-    match isExternalRaw cfg h with
-    | .error _ => (false, c)
-    | .ok none => (false, c)
-    | .ok (some b) => (b, (h, b) :: c)
+    match isExternalNow cfg lk h with
+    | (.error _, lk', f) => ⟨false, c, lk', f⟩
+    | (.ok none, lk', f) => ⟨false, c, lk', f⟩
+    | (.ok (some b), lk', f) => ⟨b, (h, b) :: c, lk', f⟩
 
 /-- `_check_blocked` (True = not blocked). -/
 def checkBlocked (f : Filter) (h : Str) : Bool :=
@@ -133,14 +169,14 @@ def checkBlocked (f : Filter) (h : Str) : Bool :=
   | some bl => !bl.contains h
 
 /-- `is_allowed` (total: it never raises). -/
-def isAllowed (cfg : Cfg) (f : Filter) (c : Cache) (h : Str) (hdr : Hdr) : Bool × Cache :=
-  if !f.valid then (false, c) else
+def isAllowed (cfg : Cfg) (f : Filter) (c : Cache) (lk : Lookups) (h : Str) (hdr : Hdr) : Dec :=
+  if !f.valid then ⟨false, c, lk, false⟩ else
   match hdrOverride hdr with
-  | some b => (b, c)
+  | some b => ⟨b, c, lk, false⟩
   | none =>
     match f.allow with
-    | some al => (al.contains h, c)
-    | none => if checkBlocked f h then isExternal cfg c h else (false, c)
+    | some al => ⟨al.contains h, c, lk, false⟩
+    | none => if checkBlocked f h then isExternal cfg c lk h else ⟨false, c, lk, false⟩
 
 /-! ### Circuit breaker and hook protocol -/
 
@@ -194,9 +230,10 @@ structure St where
   start : Nat      -- `_cooldown_started_at` (ticks)
   now   : Nat      -- the clock (ticks)
   cache : Cache    -- `_is_external_cache`
+  lookups : Lookups := []   -- lookups the filter has made so far (resolver side)
 deriving Repr
 
-def St.init (t0 : Nat) : St := { cnt := 0, ok := true, start := 0, now := t0, cache := [] }
+def St.init (t0 : Nat) : St := { cnt := 0, ok := true, start := 0, now := t0, cache := [], lookups := [] }
 
 /-- `state_ok` (`_ensure_exit_fail_safe`): re-close once the cool-down has elapsed. -/
 def stateOk (cfg : Cfg) (s : St) : St :=
@@ -230,10 +267,16 @@ def gwLeg (cfg : Cfg) (s2 : St) (c : CallIn) : St × CallOut :=
 def call (cfg : Cfg) (s : St) (c : CallIn) : St × CallOut :=
   let s1 := stateOk cfg s
   if s1.ok then
-    match isAllowed cfg (mkFilter cfg) s1.cache c.host c.hdr with
-    | (true, cache) => gwLeg cfg { s1 with cache := cache } c
-    | (false, cache) => directLeg { s1 with cache := cache, cnt := 0 } [] c
+    let d := isAllowed cfg (mkFilter cfg) s1.cache s1.lookups c.host c.hdr
+    if d.allowed then gwLeg cfg { s1 with cache := d.cache, lookups := d.lookups } c
+    else directLeg { s1 with cache := d.cache, lookups := d.lookups, cnt := 0 } [] c
   else directLeg { s1 with cnt := 0 } [] c
+
+/-- Did the resolver fail transiently during this call?  (No decision is taken while the breaker
+    is open.) -/
+def callFault (cfg : Cfg) (s : St) (c : CallIn) : Bool :=
+  let s1 := stateOk cfg s
+  s1.ok && (isAllowed cfg (mkFilter cfg) s1.cache s1.lookups c.host c.hdr).fault
 
 /-- Inputs of a run: clock advances, intercepted calls, and direct questions to the filter
     (`TrafficFilter.is_allowed`, which shares the cache with the calls). -/
@@ -248,6 +291,7 @@ structure DecObs where
   host   : Str
   hdr    : Hdr
   answer : Bool
+  fault  : Bool      -- the resolver failed transiently while answering
 deriving Repr
 
 /-- What an outside observer records for one call. -/
@@ -255,12 +299,15 @@ structure Obs where
   t   : Nat
   inp : CallIn
   out : CallOut
+  fault : Bool := false   -- the resolver failed transiently during this call
 deriving Repr
 
 def step (cfg : Cfg) (s : St) : Input → St × Option Obs
   | .adv d => ({ s with now := s.now + d }, none)
-  | .call c => let (s', o) := call cfg s c; (s', some ⟨s.now, c, o⟩)
-  | .decide h hdr => ({ s with cache := (isAllowed cfg (mkFilter cfg) s.cache h hdr).2 }, none)
+  | .call c => let (s', o) := call cfg s c; (s', some ⟨s.now, c, o, callFault cfg s c⟩)
+  | .decide h hdr =>
+    let d := isAllowed cfg (mkFilter cfg) s.cache s.lookups h hdr
+    ({ s with cache := d.cache, lookups := d.lookups }, none)
 
 /-- Observable history (oldest first) of a run. -/
 def run (cfg : Cfg) : St → List Input → List Obs
@@ -276,7 +323,8 @@ def runDec (cfg : Cfg) : St → List Input → List DecObs
   | s, i :: is =>
     match i with
     | .decide h hdr =>
-      ⟨h, hdr, (isAllowed cfg (mkFilter cfg) s.cache h hdr).1⟩ :: runDec cfg (step cfg s i).1 is
+      let d := isAllowed cfg (mkFilter cfg) s.cache s.lookups h hdr
+      ⟨h, hdr, d.allowed, d.fault⟩ :: runDec cfg (step cfg s i).1 is
     | _ => runDec cfg (step cfg s i).1 is
 
 /-- Final state of a run. -/
